@@ -2,7 +2,7 @@
    witnesses for the sharing that the current code still has. *)
 From Coq Require Import ZArith List Bool Lia.
 Import ListNotations.
-Require Import PyBase Heap HeapFacts HeapFrame HeapCopy HeapHistory HeapSim HeapOps HeapLinkerSim HeapProtect HeapLinkerCopySim HeapLinkerInit HeapForest.
+Require Import PyBase Heap HeapFacts HeapFrame HeapCopy HeapHistory HeapSim HeapOps HeapLinkerSim HeapProtect HeapLinkerCopySim HeapLinkerInit HeapForest HeapForestCopy.
 Open Scope Z_scope.
 
 Fixpoint nodupb (l : list Z) : bool := match l with [] => true | x :: r => negb (zmem x r) && nodupb r end.
@@ -432,3 +432,25 @@ Example ex_forest_through_copy_and_init :
   let s2 := run_hevents K1 s_tr [HOps 1 forest_ops; HEv (ECopy 1); HEv (EInit 0 (args list_span)); HOps 2 forest_ops] in
   forestb 5 (sh s1) = true /\ forestb 5 (sh s2) = true /\ root_views s1 7 = root_views s2 7.
 Proof. vm_compute. repeat split; reflexivity. Qed.
+
+(* ---- hypotheses of dc_entries_pol_forest are satisfiable (and decidable): the __dict__ entries of the traced instance after the
+   operation history forest_ops are jointly tree-like; both memo policies of copy()'s dict comprehension succeed on them *)
+Definition s_fc : state := run_hevents K0 s_tr [HOps 1 forest_ops].
+Definition fc_cells : list (Z * val) := match nth_error (sh s_fc) 5 with Some o => ocells o | None => [] end.
+
+Example ex_entries_tree_hypotheses :
+  length fc_cells = 19%nat /\ wf (sh s_fc) /\ forest 5 (sh s_fc) /\ entries_tree (sh s_fc) fc_cells /\
+  (exists h' cs', dc_entries_pol false (sh s_fc) fc_cells = Some (h', cs')) /\
+  (exists h' cs', dc_entries_pol true (sh s_fc) fc_cells = Some (h', cs')).
+Proof.
+  split; [vm_compute; reflexivity|]. split; [apply wfb_sound; vm_compute; reflexivity|].
+  split; [apply forestb_sound; vm_compute; reflexivity|]. split; [apply entries_treeb_sound; vm_compute; reflexivity|].
+  split.
+  - destruct (dc_entries_pol false (sh s_fc) fc_cells) as [[h' cs']|] eqn:E; [eauto | vm_compute in E; discriminate].
+  - destruct (dc_entries_pol true (sh s_fc) fc_cells) as [[h' cs']|] eqn:E; [eauto | vm_compute in E; discriminate].
+Qed.
+
+(* after the user aliased two entries (m.mine = m.names) the entries are NOT jointly tree-like: the hypothesis is needed *)
+Example ex_entries_tree_needed :
+  entries_treeb (sh s_ua) (match nth_error (sh s_ua) 5 with Some o => ocells o | None => [] end) = false.
+Proof. vm_compute. reflexivity. Qed.
